@@ -12,23 +12,9 @@ Section Inst.
   Variable H : list N -> list N.                              (* sha1Sum *)
   Hypothesis H_len : forall x, length (H x) = 20.
   Hypothesis H_bytes : forall x, bytes_ok (H x).
-  Variable des_enc des_dec : list N -> list N -> list N.      (* des.NewTripleDESCipher(key).Encrypt / Decrypt on one block *)
-  Hypothesis des_ok : forall key x, length x = 8 -> bytes_ok x ->
-    length (des_enc key x) = 8 /\ bytes_ok (des_enc key x) /\ des_dec key (des_enc key x) = x.
-
   (* pbkdf(sha1Sum, 20, 64, salt, password, iterations, ID, size) *)
   Definition kdf_inst (id : N) (size : nat) (salt password : list N) (it : Z) : outcome (list N) :=
     pbkdf_model H 20 64 salt password it id size.
-
-  (* shaWithTripleDESCBC.create / shaWith40BitRC2CBC.create *)
-  Definition create_inst (alg : pbeAlg) (key : list N) : outcome (blockfn * blockfn) :=
-    match alg with
-    | PBE3DES => if Nat.eqb (length key) 24
-                 then Ok ((fun b => Ok (des_enc key b)) : blockfn, (fun b => Ok (des_dec key b)) : blockfn)
-                 else Err 21
-    | PBERC2 => do k <- rc2_New key (N.of_nat (8 * length key)); Ok (rc2_encrypt k : blockfn, rc2_decrypt k : blockfn)
-    | PBEOther => Err 20
-    end.
 
   Lemma H_iter_props r x : 1 <= r -> length (H_iter H r x) = 20 /\ bytes_ok (H_iter H r x).
   Proof.
@@ -58,6 +44,23 @@ Section Inst.
     - unfold bytes_ok in *. rewrite <- (firstn_skipn size) in B. apply Forall_app in B. tauto.
   Qed.
 
+End Inst.
+
+Section InstCreate.
+  Variable des_enc des_dec : list N -> list N -> list N.      (* des.NewTripleDESCipher(key).Encrypt / Decrypt on one block *)
+  Hypothesis des_ok : forall key x, length x = 8 -> bytes_ok x ->
+    length (des_enc key x) = 8 /\ bytes_ok (des_enc key x) /\ des_dec key (des_enc key x) = x.
+
+  (* shaWithTripleDESCBC.create / shaWith40BitRC2CBC.create *)
+  Definition create_inst (alg : pbeAlg) (key : list N) : outcome (blockfn * blockfn) :=
+    match alg with
+    | PBE3DES => if Nat.eqb (length key) 24
+                 then Ok ((fun b => Ok (des_enc key b)) : blockfn, (fun b => Ok (des_dec key b)) : blockfn)
+                 else Err 21
+    | PBERC2 => do k <- rc2_New key (N.of_nat (8 * length key)); Ok (rc2_encrypt k : blockfn, rc2_decrypt k : blockfn)
+    | PBEOther => Err 20
+    end.
+
   Lemma create_inst_ok alg key : alg <> PBEOther -> length key = keySize alg ->
     exists E D, create_inst alg key = Ok (E, D) /\ block_ok E D.
   Proof.
@@ -75,4 +78,4 @@ Section Inst.
       exists out. split; [exact Eo|]. split; [exact Lo|]. split; [exact Bo|].
       rewrite Eo in Hde. cbn [obind] in Hde. exact Hde.
   Qed.
-End Inst.
+End InstCreate.
